@@ -761,6 +761,7 @@ func init() {
 		filterCampaign(c, "C08")
 		if c.Replay == "" {
 			c08Extension(c, "C08", NewRng(c.Seed^0xC08E))
+			c08BigThroughPipes(c, NewRng(c.Seed^0xC08F))
 		}
 	}
 	campaigns["C01"] = func(c *Ctx) {
@@ -772,5 +773,28 @@ func init() {
 			// smudging into a named file over {no file, same file, same length, shorter, longer}
 			smudgeToFileCampaign(c, NewRng(c.Seed^0xC01F), "C01")
 		}
+	}
+}
+
+
+// c08BigThroughPipes: content far larger than the pipes between Git and a long-running filter hold — raw
+// files committed at tracked paths, look-alikes that begin like a pointer — through the real
+// `git-lfs filter-process`, spoken to the way Git does (the whole request is written before a byte of
+// the answer is read), with and without the delay capability.  Pass-through means: all of it comes back.
+func c08BigThroughPipes(c *Ctx, r *Rng) {
+	n := c.N(4, 40)
+	for i := 0; i < n; i++ {
+		p := fpProgram{Delay: i%2 == 0, SkipErrs: true}
+		p.Objects = []fpObject{{Content: r.Bytes(50), Where: "local"}}
+		for k := 0; k < 2; k++ {
+			big := r.Bytes(Pick(r, []int{250000, 600000, 1100000}))
+			if r.Bool() {
+				big = append(canonicalPointer(sha(big), int64(len(big))), big...)
+			}
+			cmd := Pick(r, []string{"smudge", "smudge", "clean"})
+			p.Reqs = append(p.Reqs, fpReq{Cmd: cmd, Path: fmt.Sprintf("dir/big%d.bin", k), Obj: -1, CanDelay: cmd == "smudge" && p.Delay, PktSize: 65516, Payload: big})
+		}
+		runFpProgram(c, 900000+i, p)
+		c.R.Count("big-through-pipes")
 	}
 }
